@@ -183,6 +183,28 @@ impl Ctx {
                 self.out.case("", &[], &["inline-bit".into(), hx(&msg), bit.to_string()], "reject", Some(true), &format!("{cls}-rejected"));
             }
         }
+        // the trailing Signature packet of the one-pass form: every bit of its signed fields
+        // (version, type, algorithms, hashed area, digest prefix, salt) must matter, although
+        // the running digest was set up from the One-Pass Signature packet in front
+        let mut o = 0usize; let mut sig_off = None;
+        while o + 2 <= msg.len() && msg[o] & 0xC0 == 0xC0 {
+            let (hl, bl) = match msg[o + 1] { l @ 0..=191 => (2, l as usize), l @ 192..=223 if o + 3 <= msg.len() => (3, ((l as usize - 192) << 8) + msg[o + 2] as usize + 192), 255 if o + 6 <= msg.len() => (6, u32::from_be_bytes([msg[o + 2], msg[o + 3], msg[o + 4], msg[o + 5]]) as usize), _ => break };
+            if msg[o] & 0x3F == 2 { sig_off = Some(o); }
+            o += hl + bl;
+        }
+        if let (Some(so), true) = (sig_off, o == msg.len()) {
+            if let Some(l) = layout(&msg[so..]) {
+                for off in 0..l.value.min(msg.len() - so) {
+                    let (field, must) = field_of(&l, off, true, &msg[so..]);
+                    if !must || field == "header" { continue; }
+                    for bitn in 0..8 {
+                        let mut v = msg.clone(); v[so + off] ^= 1 << bitn;
+                        let (acc, _) = check(&v);
+                        self.out.case("", &[], &["inline-bit".into(), hx(&msg), ((so + off) * 8 + bitn).to_string()], &format!("trailing-sig field={field} accepted={}", acc as u8), Some(!acc), &format!("{cls}-trailing-{field}"));
+                    }
+                }
+            }
+        }
     }
 
     /// certificate: every bit of the transferable public key; verify_bindings must fail or the cert must be unchanged in its signed parts
